@@ -25,6 +25,8 @@ pub enum FaultKind {
     Silent { close_ok: bool },
     /// deliver a Binary message that is not a valid frame (peer stays connected)
     Garbage(Vec<u8>),
+    /// only the write side fails; what the peer sent (and sends) can still be read
+    SendErrOnly,
 }
 
 impl FaultKind {
@@ -36,6 +38,7 @@ impl FaultKind {
             Self::SendErr { silent_source } => format!("SendErr(silent_source={silent_source})"),
             Self::Silent { close_ok } => format!("Silent(close_ok={close_ok})"),
             Self::Garbage(b) => format!("Garbage({}B)", b.len()),
+            Self::SendErrOnly => "SendErrOnly".into(),
         }
     }
 }
@@ -154,6 +157,10 @@ impl Net {
                 self.links[p].q.push_front(Message::Binary(bytes.into()));
                 cut_peer = false;
             }
+            FaultKind::SendErrOnly => {
+                self.eps[e].sink = Sink::Err;
+                cut_peer = false;
+            }
         }
         if cut_peer {
             // the peer sees the transport end and talks into the void
@@ -186,6 +193,17 @@ impl Net {
     pub fn sent(&self, ep: usize) -> usize {
         self.links[ep].sent
     }
+}
+
+/// Arm (or replace) the fault plan of an endpoint while the run is in progress.
+pub fn arm_fault(net: &NetRef, ep: usize, plan: FaultPlan) {
+    let mut n = net.lock().unwrap();
+    n.eps[ep].fault = Some(plan);
+    n.eps[ep].fired = false;
+}
+
+pub fn sent_count(net: &NetRef, ep: usize) -> usize {
+    net.lock().unwrap().sent(ep)
 }
 
 pub fn set_flush_pending(net: &NetRef, ep: usize, n: u8) {
